@@ -947,8 +947,13 @@ def run_case(sc, opts):
                     return vloop.VPool(loop, max_workers=max_workers,
                                        on_shutdown=lambda w, c: log.add("pool.shutdown", bool(w), bool(c)), **kw)
 
-                box["apimod"] = (apimod, apimod.ThreadPoolExecutor)
-                apimod.ThreadPoolExecutor = pool
+                # by identity, wherever taskiq bound the class or its modules (not `apimod.ThreadPoolExecutor = pool`)
+                import concurrent.futures as _cf
+                import concurrent.futures.thread as _cft
+                import patchall
+                box["apimod"] = _cft.ThreadPoolExecutor
+                patchall.patch_attr(_cft, "ThreadPoolExecutor", pool, prefix="taskiq")
+                patchall.replace_everywhere(_cf, patchall._SHIMS[id(_cft)], prefix="taskiq")
             akw = dict(live.get("kw") or {})
             if akw.get("ack_time") is not None:
                 akw["ack_time"] = AcknowledgeType(akw["ack_time"])
@@ -1108,7 +1113,11 @@ def run_case(sc, opts):
             log = vloop.run(main)
     finally:
         if box.get("apimod"):
-            box["apimod"][0].ThreadPoolExecutor = box["apimod"][1]
+            import concurrent.futures as _cf
+            import concurrent.futures.thread as _cft
+            import patchall
+            patchall.patch_attr(_cft, "ThreadPoolExecutor", box["apimod"], prefix="taskiq")
+            patchall.replace_everywhere(_cf, _cf, prefix="taskiq")
         rmod.asyncio = REAL_ASYNCIO
         # process-wide state of taskiq this case touched (the child process runs many cases)
         for n in box["global_names"]:
